@@ -28,6 +28,7 @@ type LifeParams struct {
 	BigTimeout  bool // allow timeout >= duration/2 (reaches the known give-up defect)
 	PoorSP      bool // one provider has almost no liquid balance (debt paths)
 	Drain       bool // at the end advance past every scheduled height
+	DrainCap    int64 // do not drain beyond this height (0 = no cap)
 	Params      func(p *nodetypes.Params)
 }
 
@@ -416,6 +417,9 @@ func (l *Life) Run() {
 				break
 			}
 			target := int64(last) + 1
+			if l.P.DrainCap > 0 && target > l.P.DrainCap {
+				break
+			}
 			if target > w.C.Height+20000 {
 				break
 			}
@@ -494,5 +498,63 @@ func scnSponsoredNoPay(ctx *check.JobCtx) {
 		w.Advance(5)
 	}
 	w.Sample("sponsored order of an owner without payment address: %s", traceSummary(w))
+	w.Finish()
+}
+
+// scnRecreate: cancellation / termination followed by re-creation of the same data id, then block
+// advance across the old and the new scheduled heights.
+func scnRecreate(ctx *check.JobCtx) {
+	w := newLifeWorld(ctx, monitorsFor(ctx.Job.Prop)...)
+	p := DefaultLife()
+	p.Providers = 4
+	l := SetupLife(w, p)
+	if w.Halted() {
+		w.Finish()
+		return
+	}
+	r := w.Rng
+	g := l.GW[0]
+	o := l.Owners[r.Intn(len(l.Owners))]
+	mode := ctx.Arg("mode", "cancel")
+	did := w.NewDataId()
+	d1 := uint64(3600 + r.Intn(300))
+	_, oid := w.Store(world.StoreReq{Owner: o.Id, Gateway: g, DataId: did, CommitId: did, Duration: d1, Replica: 2, Timeout: 400, Size: 1_000_000})
+	w.EndBlock()
+	switch mode {
+	case "cancel":
+		w.Advance(int64(r.Intn(200)))
+		w.Cancel(g.Acct, oid, g.Acct.Addr.String())
+	case "timeout":
+		w.Advance(5000) // providers silent: timeout cancel
+	case "terminate":
+		w.CompleteAll(oid)
+		w.EndBlock()
+		w.Advance(int64(50 + r.Intn(800)))
+		w.Terminate(o.Id, nil, g.Acct, "", did, nil)
+	case "terminate-inflight":
+		w.Advance(int64(r.Intn(100)))
+		w.Terminate(o.Id, nil, g.Acct, "", did, nil)
+		w.EndBlock()
+		w.Cancel(g.Acct, oid, g.Acct.Addr.String())
+	}
+	w.EndBlock()
+	w.Advance(int64(1 + r.Intn(300)))
+	// same data id again, with a lifetime that straddles the first one's scheduled end
+	d2 := uint64(3600 + r.Intn(2500))
+	_, oid2 := w.Store(world.StoreReq{Owner: o.Id, Gateway: g, DataId: did, CommitId: did, Duration: d2, Replica: 2, Timeout: 400, Size: 1_000_000})
+	w.Case("c11:recreate:%s:accepted=%v", mode, oid2 != 0)
+	if oid2 != 0 {
+		w.CompleteAll(oid2)
+		w.EndBlock()
+		if r.Intn(2) == 0 {
+			w.Advance(int64(100 + r.Intn(1000)))
+			w.Renew(o.Id, nil, g.Acct, "", 3600+uint64(r.Intn(1000)), 300, nil, did)
+		}
+	}
+	last := l.lastScheduled()
+	if last > 0 && int64(last) < w.C.Height+20000 {
+		w.AdvanceTo(int64(last) + 2)
+	}
+	w.Sample("recreate after %s: %s", mode, traceSummary(w))
 	w.Finish()
 }
